@@ -159,6 +159,15 @@ class Names:
     def unknown(self):
         r = self.rng.random()
         m = self.known()
+        odd = [x for x in self.mods if set(x.rsplit(".", 1)[-1]) & set("- ~")]
+        if odd and self.rng.random() < 0.3:
+            # "pkg.core-old" exists: the plain name it continues, if that is not there
+            x = W.pick(self.rng, odd)
+            head, _, last = x.rpartition(".")
+            cut = min(i for i, ch in enumerate(last) if ch in "- ~")
+            plain = (head + "." if head else "") + last[:cut]
+            if plain not in self.mods and last[:cut]:
+                return plain
         if r < 0.25:
             return m + "x"  # misspelt sibling: shares a prefix with a real name
         if r < 0.45:
